@@ -75,3 +75,12 @@ Theorem tri_short_file_rejected : forall ts npts r1 u r0,
   exists e, read_tri ts = MErr e.
 Proof. exact MeshCountProofs.tri_short_file_rejected. Qed.
 Print Assumptions tri_short_file_rejected.
+
+(* .mesh (binary) reader, byte level with the stream's fail flag: an accepted file holds at least the vertices and
+   triangles it announces (12 bytes each) -- the reader cannot return more than the file contains *)
+From OM Require Import Geom.ReaderCounts Geom.ReaderCountsProofs.
+Theorem mesh_announced_count_checked : forall bs pts trs,
+  read_mesh bs = MOk (pts, trs) ->
+  12 * Z.of_nat (length pts) <= Z.of_nat (length bs) /\ 12 * Z.of_nat (length trs) <= Z.of_nat (length bs).
+Proof. intros bs pts trs H. apply ReaderCountsProofs.mesh_announced_count_checked in H. tauto. Qed.
+Print Assumptions mesh_announced_count_checked.
